@@ -25,7 +25,7 @@ def fl(lo, hi):
 @st.composite
 def label_map(draw, n, scheme=None, cap=300000):
     """injective map position -> label for n rows."""
-    scheme = scheme or draw(st.sampled_from(["contiguous", "contiguous", "shuffled", "sparse", "large", "mixed"]))
+    scheme = scheme or draw(st.sampled_from(["contiguous", "contiguous", "shuffled", "sparse", "large", "mixed", "stride"]))
     if n == 0:
         return []
     if scheme == "contiguous":
@@ -39,6 +39,11 @@ def label_map(draw, n, scheme=None, cap=300000):
         base = draw(st.sampled_from([99990, 100000, 100003, cap - 10 * n - 10]))
         labs = draw(st.lists(st.integers(base, base + 10 * n + 5), min_size=n, max_size=n, unique=True))
         return labs
+    if scheme == "stride":
+        # multiples of the table length (rotated) plus a small offset: collision pattern of keys built as a * len + b
+        rot = draw(st.integers(0, n - 1))
+        off = draw(st.integers(0, 1))
+        return [n * ((k + rot) % n) + off for k in range(n)]
     # mixed: some small some large, unsorted
     labs = draw(st.lists(st.one_of(st.integers(0, 3 * n + 3), st.integers(99995, 100010)), min_size=n, max_size=n,
                          unique=True))
@@ -49,7 +54,7 @@ def label_map(draw, n, scheme=None, cap=300000):
 def hyd_net(draw, max_n=10, fluids=None, allow_oos=True, allow_pi=True, allow_ctrl=True, allow_heights=True,
             labels=True, max_sections=4, sectors=True, liquids_only=False, gases_only=False, zero_load_p=0.04,
             t_uniform=False, allow_pumps=True, min_n=2, allow_parallel=True, extra_edges=4, all_flowing=False,
-            allow_lift=True, lift_bias=2, max_eg=3):
+            allow_lift=True, lift_bias=2, max_eg=3, pi_parallel=True, pi_every=8):
     fluids = fluids or ALL_FLUIDS
     if all_flowing:
         allow_oos = False
@@ -105,7 +110,7 @@ def hyd_net(draw, max_n=10, fluids=None, allow_oos=True, allow_pi=True, allow_ct
         if kind == "tree":
             choices = ["pipe"] * 8 + ["valve"] * 2
             if allow_ctrl:
-                choices += ["press_control"]
+                choices += ["press_control"] * 2
                 if gas and allow_lift:
                     choices += ["compressor"] * lift_bias
                 if allow_pumps and allow_lift and not gas:
@@ -127,11 +132,16 @@ def hyd_net(draw, max_n=10, fluids=None, allow_oos=True, allow_pi=True, allow_ct
             elements.append(e)
             pipes_at.setdefault(a, []).append(e["index"])
             pipes_at.setdefault(b, []).append(e["index"])
-            if allow_pi and draw(st.integers(0, 7)) == 0:
-                vj = a if draw(st.booleans()) else b
-                elements.append({"table": "valve", "index": nxt("valve"), "junction": vj, "element": e["index"],
-                                 "et": "pi", "inner_diameter_mm": d,
-                                 "opened": True, "loss_coefficient": draw(st.sampled_from([0.0, 1.0, 5.0]))})
+            if allow_pi and draw(st.integers(0, pi_every - 1)) == 0:
+                # junction-pipe valves: one at one end, one at either end, or two in parallel at the same end
+                where = draw(st.sampled_from(["a", "b", "a", "b", "ab", "ab"] + (["aa"] if pi_parallel else [])))
+                for w in where:
+                    # two valves in parallel without any loss would form a loop without resistance: the circulation in it
+                    # is undetermined, so parallel valves always get a loss coefficient
+                    zetas = [1.0, 5.0] if where == "aa" else [0.0, 1.0, 5.0]
+                    elements.append({"table": "valve", "index": nxt("valve"), "junction": a if w == "a" else b,
+                                     "element": e["index"], "et": "pi", "inner_diameter_mm": d,
+                                     "opened": True, "loss_coefficient": draw(st.sampled_from(zetas))})
         elif typ == "valve":
             d = draw(st.sampled_from(PIPE_D))
             elements.append({"table": "valve", "index": nxt("valve"), "junction": a, "element": b, "et": "ju",
@@ -154,6 +164,15 @@ def hyd_net(draw, max_n=10, fluids=None, allow_oos=True, allow_pi=True, allow_ct
                              "control_active": draw(st.integers(0, 5)) > 0,
                              "loss_coefficient": draw(st.sampled_from([0.0, 0.0, 2.0])),
                              "in_service": True, "check_controllability": False})
+            if allow_oos and draw(st.booleans()):
+                # stand-by regulator line: a second controller for the same junction that is out of service (two
+                # in-service active controllers on one junction would be over-determined)
+                sb = dict(elements[-1], index=nxt("press_control"), in_service=False, control_active=True,
+                          controlled_p_bar=p0 * draw(fl(0.3, 0.99)))
+                if draw(st.booleans()):
+                    elements.insert(len(elements) - 1, sb)
+                else:
+                    elements.append(sb)
         elif typ == "flow_control":
             elements.append({"table": "flow_control", "index": nxt("flow_control"), "from_junction": a,
                              "to_junction": b, "controlled_mdot_kg_per_s": None,  # filled below
@@ -258,6 +277,83 @@ def hyd_net(draw, max_n=10, fluids=None, allow_oos=True, allow_pi=True, allow_ct
     return rec
 
 
+@st.composite
+def transport_net(draw, max_n=8, fluids=None):
+    """A distribution net (tree / meshes, any library fluid incl. gases, valves, heights, several feeders) dressed for a
+    thermal calculation: pipes get heat-transfer coefficients and ambient temperatures, every external grid fixes pressure
+    AND temperature (own feed temperature each), and nothing injects mass without a temperature (sources become sinks,
+    storages charge), so that every flowing stream has a defined temperature."""
+    fluids = fluids or (["water"] * 3 + GAS_FLUIDS)
+    rec = draw(hyd_net(max_n=max_n, fluids=fluids, allow_ctrl=False, allow_lift=False, zero_load_p=0.0, max_eg=2,
+                       max_sections=3, allow_oos=draw(st.booleans())))
+    k = 0
+    for e in rec["elements"]:
+        if e["table"] == "pipe":
+            e["u_w_per_m2k"] = draw(st.sampled_from([0.0, 1.0, 5.0, 20.0]))
+            e["text_k"] = draw(st.sampled_from(["nan", 270.0, 290.0]))
+            if draw(st.integers(0, 3)) == 0:
+                e["outer_diameter_mm"] = e["inner_diameter_mm"] + draw(st.sampled_from([10.0, 40.0]))
+        elif e["table"] == "ext_grid":
+            e["type"] = "pt"
+            e["t_k"] = draw(fl(280.0, 380.0))
+        elif e["table"] == "source":
+            e["table"] = "sink"
+            e["index"] = 700000 + k
+            k += 1
+        elif e["table"] == "mass_storage":
+            e["mdot_kg_per_s"] = abs(e["mdot_kg_per_s"])
+    if rec.get("row_order"):
+        rec["row_order"].pop("source", None)
+        rec["row_order"].pop("sink", None)
+    rec["meta"] = {"feeder": "transport"}
+    return rec
+
+
+@st.composite
+def grid_net(draw, max_side=12):
+    """Large meshed net (nx x ny lattice, 20 .. max_side^2 junctions) described by a handful of drawn numbers: pipe
+    parameters cycle through short drawn lists, loads sit on every k-th junction, 1-3 feeders. Used where a bound must not
+    grow with the size of the network."""
+    nx = draw(st.integers(4, max_side))
+    ny = draw(st.integers(3, max_side))
+    fluid = draw(st.sampled_from(["water", "lgas", "hgas", "hydrogen"]))
+    gas = fluid != "water"
+    p0 = draw(st.sampled_from([0.1, 1.0, 16.0])) if gas else draw(st.sampled_from([4.0, 10.0]))
+    t0 = draw(fl(280.0, 330.0))
+    ds = draw(st.lists(st.sampled_from([80.0, 100.0, 150.0, 200.0, 300.0]), min_size=1, max_size=4))
+    ls = draw(st.lists(fl(0.02, 0.4), min_size=1, max_size=5))
+    secs = draw(st.lists(st.sampled_from([1, 1, 1, 2, 3]), min_size=1, max_size=3))
+    hstep = draw(st.sampled_from([0.0, 0.0, 0.5, 2.0]))
+    n = nx * ny
+    juncs = [{"index": i, "pn_bar": p0, "tfluid_k": t0, "height_m": hstep * ((i % nx) + (i // nx)), "in_service": True}
+             for i in range(n)]
+    elements = []
+    k = 0
+    for y in range(ny):
+        for x in range(nx):
+            i = y * nx + x
+            for j in ([i + 1] if x + 1 < nx else []) + ([i + nx] if y + 1 < ny else []):
+                a, b = (i, j) if (k % 3) else (j, i)
+                elements.append({"table": "pipe", "index": k, "from_junction": a, "to_junction": b, "length_km": ls[k % len(ls)],
+                                 "inner_diameter_mm": ds[k % len(ds)], "k_mm": 0.1, "loss_coefficient": 0.0,
+                                 "sections": secs[k % len(secs)], "in_service": True})
+                k += 1
+    every = draw(st.integers(2, 7))
+    m_each = draw(fl(0.2, 1.0)) * (0.002 if gas else 0.05) * (p0 + 1.0 if gas else 1.0)
+    li = 0
+    for i in range(1, n):
+        if i % every == 0:
+            tbl = "sink" if (li % 5) else "source"
+            elements.append({"table": tbl, "index": li, "junction": i, "mdot_kg_per_s": m_each * (0.3 if tbl == "source" else 1.0),
+                             "scaling": 1.0, "in_service": True})
+            li += 1
+    corners = [0, n - 1, nx - 1]
+    for e_i in range(draw(st.integers(1, 3))):
+        elements.append({"table": "ext_grid", "index": e_i, "junction": corners[e_i], "p_bar": p0 * (1.0 + 0.02 * e_i), "t_k": t0,
+                         "type": "pt", "in_service": True})
+    return {"fluid": fluid, "sector": "all", "junction": juncs, "elements": elements, "meta": {"grid": [nx, ny]}}
+
+
 def fix_pi_order(elements):
     """stable fix-up of a creation order: junction-pipe valves are moved behind their pipe."""
     placed, out, pending = set(), [], []
@@ -314,14 +410,14 @@ def relabel(draw, rec, force=False):
     tables = {}
     for e in rec["elements"]:
         tables.setdefault(e["table"], []).append(e["index"])
-    scheme = draw(st.sampled_from(["contiguous", "shuffled", "sparse", "large", "mixed"] if force else
-                                  ["contiguous", "contiguous", "contiguous", "shuffled", "sparse", "large", "mixed"]))
+    scheme = draw(st.sampled_from(["contiguous", "shuffled", "sparse", "large", "mixed", "stride"] if force else
+                                  ["contiguous", "contiguous", "contiguous", "shuffled", "sparse", "large", "mixed", "stride"]))
     jl = [j["index"] for j in rec["junction"]]
     jm = draw(label_map(len(jl), scheme))
     jmap = dict(zip(jl, jm))
     tmaps = {}
     for t, idxs in sorted(tables.items()):
-        sch = scheme if draw(st.booleans()) else draw(st.sampled_from(["contiguous", "shuffled", "sparse", "large"]))
+        sch = scheme if draw(st.booleans()) else draw(st.sampled_from(["contiguous", "shuffled", "sparse", "large", "stride"]))
         tm = draw(label_map(len(idxs), sch))
         tmaps[t] = dict(zip(idxs, tm))
     out = apply_label_maps(rec, jmap, tmaps)
